@@ -198,6 +198,7 @@ def merge(dumps: list[dict]) -> dict:
 
 
 def workdir(prop: str) -> str:
-    d = os.path.join(os.path.dirname(os.path.dirname(os.path.abspath(__file__))), ".work", prop)
+    base = os.environ.get("VQ_OUT") or os.path.dirname(os.path.dirname(os.path.abspath(__file__)))
+    d = os.path.join(base, ".work", prop)
     os.makedirs(d, exist_ok=True)
     return d
